@@ -63,6 +63,7 @@ def gen_cases(tier, seed):
     cases.append({'shape': 'exhaustion.globals', 'src': scopegen.exhaustion_case(n, as_globals=True), 'opts': o2, 'timeout': 120})
     for i, c in enumerate(cases):
         c['prop'] = PROP
+        c.setdefault('timeout', 150 if c.get('shape') in ('modgen', 'corpus') or str(c.get('shape')).startswith('exhaustion') else 40)
         c['want_sample'] = i % 1500 == 0
     return cases
 
